@@ -94,6 +94,19 @@ func locate(d D, lc bool, tf string, exp *SV, got data.Value, indir int) string 
 	case "ptr", "iface":
 		if !dbool(d, "nil") {
 			if x, ok := asD(d["v"]); ok {
+				if _, isNull := got.(data.Null); isNull && exp.T != "null" && dstr(x, "g") != "marshaler" {
+					// a non-nil pointer chain that came out as null: the defect is in
+					// the dereferencing, whatever the pointee is
+					n := indir + 1
+					for y := x; (dstr(y, "g") == "ptr" || dstr(y, "g") == "iface") && !dbool(y, "nil"); n++ {
+						z, ok := asD(y["v"])
+						if !ok {
+							break
+						}
+						y = z
+					}
+					return fmt.Sprintf("indirection-depth=%d:not-dereferenced:got=null", n)
+				}
 				return locate(x, lc, tf, exp, got, indir+1)
 			}
 		}
